@@ -12,12 +12,14 @@ Definition run_paths (x:sx) : sx :=
   | _ => sx_bad
   end.
 
-(* file table entry: (path (ok objs)) | (path (bad)) *)
+(* file table entry: (path (ok objs)) | (path (bad line)) *)
 Definition fent_of_sx (x:sx) : option (str * fent) :=
   match x with
-  | SL [SA p; SL [SA k; objs]] =>
-      if eqs k (s_ "ok") then option_map (fun l => (p, FObjs l)) (objs_of_sx objs) else None
-  | SL [SA p; SL [SA k]] => if eqs k (s_ "bad") then Some (p, FBad) else None
+  | SL [SA p; SL [SA k; v]] =>
+      if eqs k (s_ "ok") then option_map (fun l => (p, FObjs l)) (objs_of_sx v)
+      else if eqs k (s_ "bad") then
+        match v with SA ln => option_map (fun n => (p, FBad n)) (nat_of_str ln) | _ => None end
+      else None
   | _ => None
   end.
 Definition fsys_of_sx (x:sx) : option fsys :=
